@@ -42,7 +42,7 @@ def main():
         target = REPO
         env = dict(os.environ)
         if a.worktree:
-            target = f"/tmp/seeded-wt-{i}"
+            target = f"/tmp/seeded-wt-{i}-{os.getpid()}"
             sh(f"git -C {REPO} worktree remove --force {target}")
             sh(f"git -C {REPO} worktree add --detach {target} HEAD")
             env["VERIF_REPO"] = target
@@ -52,38 +52,51 @@ def main():
             print(i, res["error"])
             summary[i] = res
             continue
-        # the checks rewrite evidence/<id>.json and evidence/replays: keep the clean-tree evidence
+        # evidence and replays of these runs go to a scratch directory (VERIF_EVIDENCE_DIR), never to
+        # /verif/evidence, which holds the evidence of the unchanged tree
         import shutil
         import tempfile
-        keep = tempfile.mkdtemp(prefix="evidence-keep-")
-        shutil.copytree(os.path.join(V, "evidence"), os.path.join(keep, "evidence"))
+        evd = tempfile.mkdtemp(prefix=f"seeded-evidence-{i}-")
+        env["VERIF_EVIDENCE_DIR"] = evd
         try:
             for c in checks:
                 t0 = time.time()
                 p = sh(f"cd {V} && ./check {c} --tier {a.tier}", timeout=3600, env=env)
                 lines = [l for l in p.stdout.splitlines() if l.startswith(("VIOLATION", "["))]
                 det = any(l.startswith("VIOLATION") for l in lines)
-                res["runs"].append({"check": c, "exit": p.returncode, "detected": det, "lines": lines[:12],
+                res["runs"].append({"check": c, "exit": p.returncode, "detected": det,
+                                    "lines": [l.replace(evd, "<scratch evidence>") for l in lines[:12]],
                                     "wall_s": round(time.time() - t0, 1)})
-                print(i, c, "DETECTED" if det else "missed", f"exit={p.returncode}", lines[:2])
+                print(i, c, "DETECTED" if det else "missed", f"exit={p.returncode}", lines[:2], flush=True)
                 # keep the replay files this run produced beside the seeded change
-                rdir = os.path.join(V, "evidence", "replays")
+                rdir = os.path.join(evd, "replays")
                 out = os.path.join(d, f"replays_{a.tier}")
-                shutil.rmtree(out, ignore_errors=True)
+                if c == checks[0]:
+                    shutil.rmtree(out, ignore_errors=True)
                 os.makedirs(out, exist_ok=True)
-                for fn in os.listdir(rdir):
-                    if fn.startswith(c + "_"):
-                        shutil.copy(os.path.join(rdir, fn), out)
+                if os.path.isdir(rdir):
+                    for fn in os.listdir(rdir):
+                        if fn.startswith(c + "_"):
+                            shutil.copy(os.path.join(rdir, fn), out)
         finally:
-            shutil.rmtree(os.path.join(V, "evidence"), ignore_errors=True)
-            shutil.copytree(os.path.join(keep, "evidence"), os.path.join(V, "evidence"))
-            shutil.rmtree(keep, ignore_errors=True)
+            shutil.rmtree(evd, ignore_errors=True)
             if a.worktree:
                 sh(f"git -C {REPO} worktree remove --force {target}")
             else:
                 sh(f"git -C {REPO} checkout -- .")
+        # merge with the stored result: runs of checks not repeated now are kept
+        rp = os.path.join(d, f"result_{a.tier}.json")
+        if os.path.exists(rp) and "error" not in res:
+            try:
+                old = json.load(open(rp))
+                done = {x["check"] for x in res["runs"]}
+                res["runs"] = [x for x in old.get("runs", []) if x["check"] not in done] + res["runs"]
+                order = meta.get("checks", [meta["property"]])
+                res["runs"].sort(key=lambda x: order.index(x["check"]) if x["check"] in order else 99)
+            except Exception:  # noqa: BLE001
+                pass
         res["detected_by"] = [x["check"] for x in res["runs"] if x["detected"]]
-        json.dump(res, open(os.path.join(d, f"result_{a.tier}.json"), "w"), indent=1)
+        json.dump(res, open(rp, "w"), indent=1)
         summary[i] = res
     print(json.dumps({k: v.get("detected_by", v.get("error")) for k, v in summary.items()}, indent=1))
 
